@@ -5,6 +5,8 @@ mod interpose;
 mod known;
 mod oracles;
 mod prng;
+mod refmls;
+mod treeor;
 mod runner;
 mod scenarios;
 mod seams;
